@@ -166,8 +166,9 @@ func ruleLineReset(c *Ctx) {
 			}
 		}
 	}
+	n += lineResetMemoryForm(c)
 	c.Analysed["line_state_resets"] = n
-	if n < 2 {
+	if n < 1 {
 		c.Undecided("LINE-RESET", "instance-count", token.NoPos, fmt.Sprintf("%d line-state resets found in package format; the state/counter idiom of the fence-length scan must still be recognised", n))
 	}
 }
@@ -188,4 +189,215 @@ func init() {
 		Control{Name: "neg-fence-scan-reset-before-state", Props: []string{"C20"}, File: "format/format.go", Negative: true,
 			Old: "\t\t\tstate = -1\n\t\t\tindent = 0\n", New: "\t\t\tindent = 0\n\t\t\tstate = -1\n"},
 	)
+}
+
+// lineResetMemoryForm: the same rule where state and counter are variables captured by closures (heap cells): a cell is an
+// Alloc of the enclosing function, or the free variable of a closure bound to it.
+func lineResetMemoryForm(c *Ctx) int {
+	p := c.P
+	n := 0
+	for _, fn := range p.Funcs {
+		if fn.Pkg != p.FMTs || fn.Blocks == nil || fn.Parent() != nil {
+			continue
+		}
+		// the family: fn and the closures it makes; cell identity through the closure bindings
+		cellOf := map[ssa.Value]*ssa.Alloc{}
+		family := []*ssa.Function{fn}
+		eachInstr(fn, func(in ssa.Instruction) {
+			if al, ok := in.(*ssa.Alloc); ok && al.Heap && isIntType(deref(al.Type())) {
+				cellOf[al] = al
+			}
+		})
+		if len(cellOf) < 2 {
+			continue
+		}
+		closureCells := map[*ssa.Function]map[*ssa.Alloc]bool{}
+		eachInstr(fn, func(in ssa.Instruction) {
+			mc, ok := in.(*ssa.MakeClosure)
+			if !ok {
+				return
+			}
+			cf, ok := mc.Fn.(*ssa.Function)
+			if !ok {
+				return
+			}
+			family = append(family, cf)
+			closureCells[cf] = map[*ssa.Alloc]bool{}
+			for i, b := range mc.Bindings {
+				if al, ok := b.(*ssa.Alloc); ok && cellOf[al] != nil && i < len(cf.FreeVars) {
+					cellOf[cf.FreeVars[i]] = al
+					closureCells[cf][al] = true
+				}
+			}
+		})
+		loadOf := func(v ssa.Value) *ssa.Alloc {
+			if u, ok := v.(*ssa.UnOp); ok && u.Op == token.MUL {
+				return cellOf[u.X]
+			}
+			return nil
+		}
+		type gate struct {
+			s *ssa.Alloc
+			k int64
+		}
+		incGates := map[*ssa.Alloc]map[gate]int{}
+		incCount := map[*ssa.Alloc]int{}
+		for _, f := range family {
+			eachInstr(f, func(in ssa.Instruction) {
+				st, ok := in.(*ssa.Store)
+				if !ok {
+					return
+				}
+				cc := cellOf[st.Addr]
+				if cc == nil {
+					return
+				}
+				bo, ok := st.Val.(*ssa.BinOp)
+				if !ok || bo.Op != token.ADD || loadOf(bo.X) != cc {
+					return
+				}
+				incCount[cc]++
+				for _, b := range f.Blocks {
+					iff := blockIf(b)
+					if iff == nil {
+						continue
+					}
+					cmp, ok := stripNot(iff.Cond).(*ssa.BinOp)
+					if !ok || (cmp.Op != token.EQL && cmp.Op != token.NEQ) {
+						continue
+					}
+					k, isC := constInt(cmp.Y)
+					sc := loadOf(cmp.X)
+					if !isC || sc == nil || sc == cc {
+						continue
+					}
+					edge := 0
+					if cmp.Op == token.NEQ {
+						edge = 1
+					}
+					if isNegated(iff.Cond) {
+						edge = 1 - edge
+					}
+					if !edgeDominates(b, edge, st.Block()) {
+						continue
+					}
+					if incGates[cc] == nil {
+						incGates[cc] = map[gate]int{}
+					}
+					incGates[cc][gate{sc, k}]++
+				}
+			})
+		}
+		for cc, gates := range incGates {
+			for g, cnt := range gates {
+				if cnt != incCount[cc] {
+					continue
+				}
+				sites := 0
+				for _, f := range family {
+					eachInstr(f, func(in ssa.Instruction) {
+						st, ok := in.(*ssa.Store)
+						if !ok || cellOf[st.Addr] != g.s {
+							return
+						}
+						if kv, isC := constInt(st.Val); !isC || kv != g.k {
+							return
+						}
+						if f == fn && st.Block() == fn.Blocks[0] {
+							return // the initialisation
+						}
+						sites++
+						n++
+						key := fmt.Sprintf("%s:state=%d#%d", shortFuncName(fn), g.k, sites)
+						isClear := func(x ssa.Instruction) bool {
+							s2, ok := x.(*ssa.Store)
+							if !ok || cellOf[s2.Addr] != cc {
+								return false
+							}
+							z, isC := constInt(s2.Val)
+							return isC && z == 0
+						}
+						// cleared earlier in the same block, or on every way on before the counter is used again
+						ok2 := false
+						for _, x := range st.Block().Instrs {
+							if x == ssa.Instruction(st) {
+								break
+							}
+							if isClear(x) {
+								ok2 = true
+							}
+						}
+						if !ok2 {
+							ok2 = !reachesUseBefore(st, isClear, func(x ssa.Instruction) bool {
+								if u, ok := x.(*ssa.UnOp); ok && u.Op == token.MUL && cellOf[u.X] == cc {
+									return true
+								}
+								if cl, ok := x.(*ssa.Call); ok {
+									if mc, ok := cl.Call.Value.(*ssa.MakeClosure); ok {
+										if cf, ok := mc.Fn.(*ssa.Function); ok && closureCells[cf][cc] {
+											return true
+										}
+									}
+								}
+								switch x.(type) {
+								case *ssa.Return:
+									return true
+								}
+								return false
+							})
+						}
+						c.Check(ok2, "LINE-RESET", key, st.Pos(), "the scanning state is set back to its start-of-line value here while the counter that is advanced only in that state keeps its value from earlier lines")
+					})
+				}
+			}
+		}
+	}
+	return n
+}
+
+// reachesUseBefore: some path from (after) a reaches an instruction for which use is true without first executing one for
+// which hit is true.
+func reachesUseBefore(a ssa.Instruction, hit, use func(ssa.Instruction) bool) bool {
+	scan := func(instrs []ssa.Instruction) (blocked, used bool) {
+		for _, in := range instrs {
+			if hit(in) {
+				return true, false
+			}
+			if use(in) {
+				return false, true
+			}
+		}
+		return false, false
+	}
+	ab := a.Block()
+	if bl, us := scan(ab.Instrs[instrIndex(a)+1:]); bl {
+		return false
+	} else if us {
+		return true
+	}
+	seen := map[*ssa.BasicBlock]bool{}
+	var walk func(b *ssa.BasicBlock) bool
+	walk = func(b *ssa.BasicBlock) bool {
+		if seen[b] {
+			return false
+		}
+		seen[b] = true
+		if bl, us := scan(b.Instrs); bl {
+			return false
+		} else if us {
+			return true
+		}
+		for _, s := range b.Succs {
+			if walk(s) {
+				return true
+			}
+		}
+		return false
+	}
+	for _, s := range ab.Succs {
+		if walk(s) {
+			return true
+		}
+	}
+	return false
 }
